@@ -147,18 +147,22 @@ struct Prog {
   void absref(const std::string& kind, uint64_t target, unsigned variant) {
     uint32_t sec = cur_sec(); size_t at = cur_off();
     Error e = Error::kOk;
+    unsigned form = 0;
     if (is_x86) {
       if (kind == "absjmp") e = (variant & 1) ? xa.call(Imm(target)) : xa.jmp(Imm(target));
       else if (kind == "absmem") {
         x86::Mem m = x86::ptr(target);
         if (variant % 3 == 1) m.set_addr_abs(); else if (variant % 3 == 2) m.set_addr_rel();
-        e = xa.mov(x86::ecx, m);
+        form = (variant / 3) % 3;      // 0: mov ecx,[m]   1: mov dword [m], imm32   2: add byte [m], imm8
+        if (form == 0) e = xa.mov(x86::ecx, m);
+        else if (form == 1) { m.set_size(4); e = xa.mov(m, 0x55667788); }
+        else { m.set_size(1); e = xa.add(m, 9); }
       }
     } else {
       if (kind == "absjmp") e = (variant & 1) ? aa.bl(Imm(target)) : aa.b(Imm(target));
     }
     size_t len = cur_off() - at;
-    w.beginObj().kv("e", "AbsRef").kv("kind", kind).kv("sec", sec + 1).kv("at", at).kv("len", len).kv("variant", variant).kv("r", err_name(e)).kv("unres", unres());
+    w.beginObj().kv("e", "AbsRef").kv("kind", kind).kv("sec", sec + 1).kv("at", at).kv("len", len).kv("variant", variant).kv("form", form).kv("r", err_name(e)).kv("unres", unres());
     wide(w, "target", target);
     if (e == Error::kOk) { refs.push_back(RefRec{sec, at, len}); w.kv("i", (long long)refs.size()); }
     w.endObj().emit(out);
@@ -318,7 +322,7 @@ static void run_program(FILE* out, vj::Rng& r, unsigned idx, unsigned max_action
       }
       if (arch == Arch::kAArch64) t &= ~uint64_t(3);
       if (arch == Arch::kX86) t &= 0xFFFFFFFFu;
-      p.absref((arch == Arch::kX64 && r.chance(1, 3)) ? "absmem" : "absjmp", t, (unsigned)r.below(6));
+      p.absref((arch == Arch::kX64 && r.chance(1, 3)) ? "absmem" : "absjmp", t, (unsigned)r.below(18));
     }
     else if (c < 72) {
       // small sizes cannot hold an address and make relocation fail (reported) - keep them rare
